@@ -149,3 +149,30 @@ fn c15_mustfail_null_last() {
     let i: i64 = kani::any();
     assert!(S::compare_values(&Value::Null, &Value::Int(i)) == Ordering::Greater);
 }
+
+//@ props=C15,C20 kind=proof timeout=900
+/// sort-key expression arithmetic (`ORDER BY a - b`): eval_binary_op_standalone for + and - over every
+/// Int/Float operand combination is the IEEE result with the documented Int -> f64 coercion, with the
+/// operands in the written order (Float - Int is NOT Int - Float); Int op Int is exact when representable;
+/// a NULL operand gives NULL
+#[kani::proof]
+#[kani::unwind(2)]
+fn c15_sort_key_arithmetic_mixed() {
+    use crate::sql::ast::BinaryOperator as B;
+    let (i, j): (i64, i64) = (kani::any(), kani::any());
+    let (f, g): (f64, f64) = (kani::any(), kani::any());
+    // finite operands: CBMC's NaN check flags inf - inf (not a Rust panic; such a trace does not replay)
+    kani::assume(f.is_finite() && g.is_finite());
+    let same = |a: f64, b: f64| a.to_bits() == b.to_bits() || (a.is_nan() && b.is_nan());
+    // Float - Int and Int - Float, Float + Int and Int + Float
+    match eval_binary_op_standalone(&Value::Float(f), &B::Minus, &Value::Int(i)) { Value::Float(r) => assert!(same(r, f - i as f64)), _ => assert!(false) }
+    match eval_binary_op_standalone(&Value::Int(i), &B::Minus, &Value::Float(f)) { Value::Float(r) => assert!(same(r, i as f64 - f)), _ => assert!(false) }
+    match eval_binary_op_standalone(&Value::Float(f), &B::Plus, &Value::Int(i)) { Value::Float(r) => assert!(same(r, f + i as f64)), _ => assert!(false) }
+    match eval_binary_op_standalone(&Value::Int(i), &B::Plus, &Value::Float(f)) { Value::Float(r) => assert!(same(r, i as f64 + f)), _ => assert!(false) }
+    match eval_binary_op_standalone(&Value::Float(f), &B::Minus, &Value::Float(g)) { Value::Float(r) => assert!(same(r, f - g)), _ => assert!(false) }
+    if let Some(d) = i.checked_sub(j) {
+        match eval_binary_op_standalone(&Value::Int(i), &B::Minus, &Value::Int(j)) { Value::Int(r) => assert!(r == d), _ => assert!(false) }
+    }
+    assert!(matches!(eval_binary_op_standalone(&Value::Null, &B::Minus, &Value::Int(i)), Value::Null));
+    assert!(matches!(eval_binary_op_standalone(&Value::Float(f), &B::Plus, &Value::Null), Value::Null));
+}
